@@ -88,7 +88,14 @@ Proof.
   split; [exact E2|]. destruct (validate_object (nth i objs d)); [discriminate | reflexivity].
 Qed.
 
-Lemma validate_all_fails_on_current_layout : forall del objs, validate_all current_layout del objs = None.
+(* on the storage the server builds ValidateAll runs, and its verdicts are validateObject's *)
+Lemma validate_all_runs_stmt : forall del objs,
+  validate_all current_layout del objs =
+  Some (map (fun o => (validate_object o, negb (validate_object o) && del)) objs).
+Proof. reflexivity. Qed.
+
+(* the layout before /repo df6e7b9: the search found nothing and ValidateAll failed for every input *)
+Lemma validate_all_failed_before_fix : forall del objs, validate_all (L false []) del objs = None.
 Proof. reflexivity. Qed.
 
 (* the search does find a part store that is a direct field of the storage or of a wrapped storage *)
@@ -96,4 +103,24 @@ Lemma find_part_store_spec : forall d inner,
   find_part_store (L d inner) = true <-> d = true \/ exists l, In l inner /\ find_part_store l = true.
 Proof.
   intros d inner. cbn. rewrite orb_true_iff, existsb_exists. tauto.
+Qed.
+
+Lemma validate_all_exact_stmt : forall del objs rs,
+  Forall (fun o => recorded_by_put o \/ (recorded_by_multipart o /\ length (parts o) <> 1%nat)) objs ->
+  validate_all current_layout del objs = Some rs ->
+  length rs = length objs /\
+  forall i, (i < length objs)%nat ->
+    let o := nth i objs {| oetag := Multi []; parts := [] |} in
+    (fst (nth i rs (true, false)) = false <-> corrupted o) /\
+    (snd (nth i rs (true, false)) = true <-> corrupted o /\ del = true).
+Proof.
+  intros del objs rs HF H. rewrite validate_all_runs_stmt in H. inversion H; subst. clear H.
+  split; [apply map_length|]. intros i Hi.
+  set (d := {| oetag := Multi []; parts := [] |}).
+  set (f := fun o => (validate_object o, negb (validate_object o) && del)).
+  rewrite (nth_indep _ (true, false) (f d)) by (rewrite map_length; exact Hi).
+  rewrite (map_nth f). cbn.
+  assert (Hw : validate_object (nth i objs d) = false <-> corrupted (nth i objs d)).
+  { apply flags_iff_stmt. rewrite Forall_forall in HF. apply HF. apply nth_In. exact Hi. }
+  split; [exact Hw|]. rewrite andb_true_iff, negb_true_iff, Hw. tauto.
 Qed.
